@@ -163,6 +163,7 @@ def run_case(case):
             pool = (elfi.ArrayPool if case['disk'] else elfi.OutputPool)(list(stored), name='p', prefix=tmp)
         outs = ['rid'] + ['s%d' % c for c in range(w)]
         max_b = 0                 # batches consumed so far over this pool
+        contaminated = False      # a D13 run has written shifted values into the pool
         late_after_S = None
         nontrivial = None
         nruns = 0
@@ -221,7 +222,9 @@ def run_case(case):
                 got = _sample_fields(res)
                 diff = [k for k in sorted(ref) if not (np.array_equal(got.get(k), ref[k]) if isinstance(ref[k], np.ndarray) else got.get(k) == ref[k])]
                 if diff:
-                    sig = 'C05:rng-shift-after-stored-stochastic' if d13 else 'C05:result-differs-from-pool-free-run'
+                    # after a run that fell under D13 the pool holds values computed from a shifted stream: later differences
+                    # in this history are consequences of the same finding
+                    sig = 'C05:rng-shift-after-stored-stochastic' if (d13 or contaminated) else 'C05:result-differs-from-pool-free-run'
                     msg = 'result with the pool differs from the same seeded run without a pool in %r (held before the run: %r); %s' % (
                         diff, {k: sorted(v) for k, v in held.items()}, octx)
                     soft(P, known, sig, msg)
@@ -234,7 +237,10 @@ def run_case(case):
                 reset()
                 mref = build(desc, variant)
                 names = [nd for nd in pool.stores if pool.stores[nd] is not None]
-                h = elfi.client.BatchHandler(mref, ComputationContext(batch_size=bs, seed=seed), output_names=list(pool.stores.keys()))
+                # the fresh computation requests what the sampler requests (which nodes run decides who draws what from the batch's
+                # single generator): the discrepancy, all parameters, the extra outputs, plus the stored nodes
+                fresh_outputs = sorted(set(['d'] + list(mref.parameter_names) + outs + list(pool.stores.keys())))
+                h = elfi.client.BatchHandler(mref, ComputationContext(batch_size=bs, seed=seed), output_names=fresh_outputs)
                 for node in pool.stores:
                     store = pool.stores[node]
                     have = set() if store is None else set(b for b in range(0, max_b + 3) if b in store)
@@ -242,7 +248,9 @@ def run_case(case):
                     if have != expect:
                         raise Violation('C05:pool-batches', 'store %s holds batches %r, expected %r after consuming batches 0..%d; %s'
                                         % (node, sorted(have), sorted(expect), nbatches - 1, octx))
-                if not d13 and not known:
+                if d13:
+                    contaminated = True
+                if not d13 and not known and not contaminated:
                     for b in range(nbatches):
                         fresh = h.compute(b)
                         got_b = pool.get_batch(b)
